@@ -147,7 +147,7 @@ theorem parseLine_field_gen (kw v : Str) (hk : KwOk kw) :
   have hpre : ∀ c ∈ (' ' :: ' ' :: kw ++ [' ']), c ≠ '\t' ∧ isBreak c = false := by
     intro c hc
     have hc' : c = ' ' ∨ c ∈ kw := by
-      simp only [List.mem_cons, List.mem_append, List.mem_singleton, List.not_mem_nil, or_false] at hc
+      simp only [List.mem_cons, List.mem_append, List.not_mem_nil, or_false] at hc
       rcases hc with (h | h | h) | h
       · exact Or.inl h
       · exact Or.inl h
